@@ -20,7 +20,7 @@ RULE = (
     "fused) x 1-3 (source, target) pairs incl. repeated sources x targets {new store, store+group path, existing Zarr "
     "array with same / different / multiple chunking, sharded} x regions {none, full, chunk-aligned offsets, "
     "misaligned, wrong shape} x API {to_zarr eager/lazy, store eager/lazy} x executor variants incl. two-phase / "
-    "spread commit on several workers. Existing targets are pre-filled with a sentinel and read back with plain "
+    "spread commit on several workers x pre-history on the same lazy source objects {none, computed before, stored to another target before, both}. Existing targets are pre-filled with a sentinel and read back with plain "
     "Zarr. Non-trivial = the call was accepted and executed, or rejected with all targets checked unchanged; "
     "distinct = distinct (scenario, configuration, digest)."
 )
@@ -44,6 +44,9 @@ def generate(tp: Tape, tier: str):
                 opt=tp.choice([dict(kind="default"), dict(kind="default"), dict(kind="off")]),
                 allowed_mem=tp.choice([200_000_000, 2_000_000]), compressor=None,
                 py_seed=tp.randint(0, 10**6), sched_seed=tp.randint(0, 2**62))
+    # histories: what happened to the *same lazy source objects* before the store call under test
+    case["pre"] = tp.weighted([([], 6), (["compute"], 2), (["store_other"], 1), (["compute", "store_other"], 1),
+                               (["store_other", "compute"], 1)])
     return case
 
 
@@ -69,12 +72,33 @@ def run_scenario(case, sched=None, monitor_records=None):
             ti.exact, ti.lowprec = shadow.exact[pr["src"]], shadow.lowprec[pr["src"]]
             infos.append(ti)
             sources.append(a)
+        og, of = PR.make_optimize_function(case.get("opt"))
+        try:
+            for act in case.get("pre") or []:
+                ex0 = H.make_executor(rr.sim, case["exec"], H.ExecState())
+                kw0 = dict(executor=ex0, optimize_graph=og, optimize_function=of)
+                if act == "compute":
+                    cubed.compute(*sources, **kw0)
+                    rr.sim.count("pre_history_compute")
+                else:
+                    from sim.store import SimStore
+
+                    t0 = SimStore(name="pre")
+                    rr.sim.attach_store(t0)
+                    cubed.to_zarr(sources[0], t0, **kw0)
+                    rr.sim.count("pre_history_store_other")
+        except (H.SimHang, H.SimStepLimit) as e:
+            out.update(phase="execute", exc=e)
+            return rr, infos, out
+        except Exception:  # noqa: BLE001 - the pre-history itself was not accepted: nothing to judge
+            out["phase"] = "build_program"
+            return rr, infos, out
+        out["inter_before"] = rr.store.digest()
         st = H.ExecState()
         rr.st = st
         executor = H.make_executor(rr.sim, case["exec"], st)
         cb = H.make_callback(rr.sim)
         rr.cb = cb
-        og, of = PR.make_optimize_function(case.get("opt"))
         kw = dict(executor=executor, callbacks=[cb], optimize_graph=og, optimize_function=of)
         targets = [ti.zarr if ti.zarr is not None else ti.store for ti in infos]
         api = case["api"]
@@ -187,8 +211,8 @@ def execute(case, sched=None):
                         violations.append(dict(cls="written_before_rejection", msg=f"pair {k}: target changed although the call was rejected with {type(e).__name__}: {str(e)[:120]}"))
                 elif ti.store.keys():
                     violations.append(dict(cls="written_before_rejection", msg=f"pair {k}: new target store has keys {ti.store.keys()[:3]} although the call was rejected"))
-            if rr.store.keys():
-                violations.append(dict(cls="written_before_rejection", msg=f"intermediate store has keys {rr.store.keys()[:3]} although the call was rejected"))
+            if rr.store.digest() != out.get("inter_before"):
+                violations.append(dict(cls="written_before_rejection", msg=f"intermediate store changed (keys {rr.store.keys()[:3]}...) although the call was rejected"))
             counters["rejected_unsafe" if not safe else "rejected_safe"] = 1
         else:
             counters["failed_execute"] = 1
@@ -214,6 +238,11 @@ def _repeated(case):
 
 
 def shrink(case):
+    if case.get("pre"):
+        for i in range(len(case["pre"])):
+            c = copy.deepcopy(case)
+            del c["pre"][i]
+            yield c
     # fewer pairs
     if len(case["pairs"]) > 1:
         for i in range(len(case["pairs"])):
